@@ -320,6 +320,15 @@ pub fn apply(store: &mut AnnotationStore, op: &Sx) -> Sx {
             });
             outcome(r, |h| h.as_usize())
         }
+        13 => {
+            // add_dataset from a builder that carries data items: (13 setid (dbuild ...)); the set
+            // reference inside the data builders is ignored
+            let mut b = AnnotationDataSetBuilder::new().with_id(sid(op.nth(1).int()));
+            for d in op.nth(2).list() {
+                b = b.with_data(dbuild(d));
+            }
+            outcome(guard(|| store.add_dataset(b)), |h| h.as_usize())
+        }
         14 => {
             // shrink_to_fit: a performance-only call (also made at the end of every load)
             match guard(|| store.shrink_to_fit(true)) {
